@@ -58,6 +58,28 @@ theorem mapM_option_fwd {α β : Type} (f : α → Option β) : ∀ (l : List α
         · obtain ⟨q, hq, hcq⟩ := ih t' ht c hc
           exact ⟨q, by simp [hq], hcq⟩
 
+theorem nodup_reverse' {α : Type} {l : List α} (h : l.Nodup) : l.reverse.Nodup := by
+  unfold List.Nodup at *
+  rw [List.pairwise_reverse]
+  exact h.imp (fun hab => Ne.symm hab)
+
+theorem nodup_getElem_inj {α : Type} {l : List α} (h : l.Nodup) (i j : Nat) (hi : i < l.length) (hj : j < l.length)
+    (he : l[i] = l[j]) : i = j := by
+  unfold List.Nodup at h
+  rw [List.pairwise_iff_getElem] at h
+  rcases Nat.lt_trichotomy i j with hlt | heq | hgt
+  · exact absurd he (h i j hi hj hlt)
+  · exact heq
+  · exact absurd he.symm (h j i hj hi hgt)
+
+theorem nodup_map_on {α β : Type} {l : List α} (f : α → β) (h : l.Nodup)
+    (hinj : ∀ x ∈ l, ∀ y ∈ l, f x = f y → x = y) : (l.map f).Nodup := by
+  unfold List.Nodup at *
+  rw [List.pairwise_map, List.pairwise_iff_getElem]
+  rw [List.pairwise_iff_getElem] at h
+  intro i j hi hj hlt hfe
+  exact h i j hi hj hlt (hinj _ (List.getElem_mem hi) _ (List.getElem_mem hj) hfe)
+
 theorem writeRows_length (rows : List Row) (upd : List (Nat × Row)) :
     (writeRows rows upd).length = rows.length := by
   induction upd generalizing rows with
